@@ -298,6 +298,17 @@ class Type:
         self.match_incr(T, tyinst)
         return tyinst
 
+    def is_apart(self, T):
+        """Whether self and T have different type constructors at some
+        position. If so, no instance of self equals an instance of T.
+
+        """
+        if self.is_tconst() and T.is_tconst():
+            return self.name != T.name or len(self.args) != len(T.args) or \
+                any(arg.is_apart(argT) for arg, argT in zip(self.args, T.args))
+        else:
+            return False
+
     def get_stvars(self):
         """Return the list of schematic type variables."""
         res = []
